@@ -134,9 +134,80 @@ def build_harness(timeout=600):
             open(gm, "w").write(new)
         rc, out = run(["go", "build", "-tags", "verif", "-o", os.path.join(BUILD, "hpverif"), "."],
                       timeout, cwd=HARNESS, env=GOENV)
-        if new != txt and REPO != "/repo":
-            open(gm, "w").write(txt)     # a run against a copy (VERIF_REPO) leaves the committed file as it was
+        if rc == 0:
+            build_wasm()
         return rc == 0, out
+
+
+def restore_gomod():
+    """After a run against a copy (VERIF_REPO) put harness/go.mod back to the committed '/repo' (stages that build at run
+    time -- the race stage, the fstest runner -- need it pointing at the copy until the run is over)."""
+    if REPO == "/repo":
+        return
+    with Lock("harness"):
+        gm = os.path.join(HARNESS, "go.mod")
+        txt = open(gm).read()
+        new = re.sub(r"replace github.com/hack-pad/hackpadfs => \S+", "replace github.com/hack-pad/hackpadfs => /repo", txt)
+        if new != txt:
+            open(gm, "w").write(new)
+
+
+WASM_FILES = ["main.go", "util.go", "c19.go", "c19_wasm.go"]
+WASM_BIN = os.path.join(BUILD, "hpverif.wasm")
+
+
+def build_wasm(timeout=600):
+    """The typed-array blob lives behind GOOS=js GOARCH=wasm: the C19 part of the harness is compiled a second time for
+    that target (called with the harness lock held and go.mod pointing at the tree under test).  A failed build removes
+    the binary; run_wasm then reports the stream as broken."""
+    env = dict(GOENV, GOOS="js", GOARCH="wasm")
+    rc, out = run(["go", "build", "-tags", "verif", "-o", WASM_BIN] + WASM_FILES, timeout, cwd=HARNESS, env=env)
+    if rc != 0:
+        try:
+            os.remove(WASM_BIN)
+        except OSError:
+            pass
+        open(os.path.join(BUILD, "wasm_build.log"), "w").write(out)
+    return rc == 0, out
+
+
+def wasm_exec():
+    rc, goroot = run(["go", "env", "GOROOT"], 60, env=GOENV)
+    goroot = goroot.strip()
+    for rel in ("misc/wasm/go_js_wasm_exec", "lib/wasm/go_js_wasm_exec"):
+        p = os.path.join(goroot, rel)
+        if os.path.exists(p):
+            return p
+    return None
+
+
+def run_wasm(stream, n, seed, timeout=1800, tier="quick"):
+    """Run a stream of the js/wasm build under node; same output format as run_harness."""
+    ex = wasm_exec()
+    if not os.path.exists(WASM_BIN):
+        msg = ""
+        try:
+            msg = open(os.path.join(BUILD, "wasm_build.log")).read()[-3000:]
+        except OSError:
+            pass
+        return 1, [], "the js/wasm build of the harness failed against this tree:\n" + msg
+    if ex is None or shutil.which("node") is None:
+        return 1, [], "go_js_wasm_exec or node not found: the typed-array blob cannot be run"
+    env = dict(GOENV, VERIF_SEED=str(seed), VERIF_TIER=tier)
+    try:
+        p = subprocess.run([ex, WASM_BIN, stream, str(n)], env=env, stdout=subprocess.PIPE, stderr=subprocess.PIPE,
+                           timeout=timeout, text=True)
+    except subprocess.TimeoutExpired:
+        return 124, [], "the js/wasm stream %s did not finish within %d s" % (stream, timeout)
+    cases = []
+    for line in p.stdout.splitlines():
+        line = line.strip()
+        if line.startswith("{"):
+            c = json.loads(line)
+            if c.get("text") is None:
+                c["text"] = [c.get("oracle") or ""] if c.get("oracle") else []
+            cases.append(c)
+    return p.returncode, cases, p.stderr[-4000:]
 
 
 def run_harness(pid, n, seed, extra=(), timeout=1800, tier="quick"):
